@@ -6,7 +6,10 @@ open AxVerif
 def parseDefects (flags : List String) : Defects :=
   { blobLenOverflow := flags.contains "blobLenOverflow",
     boolWriteWholeTail := flags.contains "boolWriteWholeTail",
-    castSaturates := flags.contains "castSaturates" }
+    castSaturates := flags.contains "castSaturates",
+    numericViaF64 := flags.contains "numericViaF64",
+    nanUnordered := flags.contains "nanUnordered",
+    hashRawBits := flags.contains "hashRawBits" }
 
 def i64? (s : String) : Option Int :=
   match s.toInt? with
@@ -48,6 +51,43 @@ def showValue : Value → String
   | .float b => s!"f:{b}"
   | .double b => s!"d:{b}"
   | .blob d => s!"x:{hexOrDash d}"
+
+def cmpName : Option Ordering → String
+  | some o => ordName o
+  | none => "none"
+
+def tf (b : Bool) : String := if b then "t" else "f"
+def okFail (b : Bool) : String := if b then "ok" else "FAIL"
+
+/-- the laws of the property evaluated on the three given values with the comparison functions under test -/
+def laws (D : Defects) (vs : List Value) : String :=
+  let e := eq D
+  let c := partialCmp D
+  let h (a b : Value) : Bool := hashKey D a == hashKey D b
+  let pairs := vs.flatMap fun a => vs.map fun b => (a, b)
+  let triples := vs.flatMap fun a => vs.flatMap fun b => vs.map fun x => (a, b, x)
+  let refl := vs.all fun a => e a a
+  let sym := pairs.all fun (a, b) => e a b == e b a && c a b == (c b a).map Ordering.swap
+  let trans := triples.all fun (a, b, x) => !(e a b && e b x) || e a x
+  let ord := triples.all fun (a, b, x) =>
+    (!(c a b == some .lt && c b x == some .lt) || c a x == some .lt) &&
+    (!(c a b == some .eq) || c a x == c b x)
+  let consist := pairs.all fun (a, b) => a.cls == 0 || b.cls == 0 || ((c a b == some .eq) == e a b)
+  let total := pairs.all fun (a, b) => a.cls == 0 || a.cls != b.cls || (c a b).isSome
+  let hash := pairs.all fun (a, b) => !(e a b) || h a b
+  -- what `sort_by` needs from the ORDER BY comparator: a strict weak order
+  let sc := sortCmp D
+  let sortord := triples.all fun (a, b, x) =>
+    sc a b == (sc b a).swap &&
+    (!(sc a b == .lt && sc b x == .lt) || sc a x == .lt) &&
+    (!(sc a b == .eq && sc b x == .eq) || sc a x == .eq)
+  s!"sortord={okFail sortord} refl={okFail refl} sym={okFail sym} trans={okFail trans} ord={okFail ord} consist={okFail consist} total={okFail total} hash={okFail hash}"
+
+def allValues : List String → Option (List Value)
+  | [] => some []
+  | w :: ws => match value? w, allValues ws with
+    | some v, some r => some (v :: r)
+    | _, _ => none
 
 def step (D : Defects) (line : String) : String :=
   match words line with
@@ -135,6 +175,18 @@ def step (D : Defects) (line : String) : String :=
       | .ok w => s!"ok {showValue w}"
       | .error e => s!"err {e.name}"
     | _, _ => "bad-op"
+  | ["pair", a, b] => match value? a, value? b with
+    | some a, some b =>
+      let ha := hashKey D a
+      let hb := hashKey D b
+      s!"eq={tf (eq D a b)} cmp={cmpName (partialCmp D a b)} heq={tf (ha == hb)} sort={ordName (sortCmp D a b)} ## ha={hexOfBytes ha} hb={hexOfBytes hb}"
+    | _, _ => "bad-op"
+  | ["hash", v] => match value? v with
+    | some v => hexOfBytes (hashKey D v)
+    | none => "bad-op"
+  | "laws" :: ws => match allValues ws with
+    | some vs => if vs.length = 0 ∨ vs.length > 4 then "bad-op" else laws D vs
+    | none => "bad-op"
   | _ => "bad-op"
 
 end AxVerif.Value
